@@ -165,7 +165,7 @@ func modelCase(rep *core.Report, prop string, c *CaseResult, governed map[string
 			badFuncs[fn] = true
 		}
 	}
-	models, _, err := BuildModels(c)
+	models, hidden, _, err := BuildModelsHidden(c)
 	if err != nil {
 		rep.Inconclusive("model: " + c.S.ID + ": " + err.Error())
 		return
@@ -176,6 +176,9 @@ func modelCase(rep *core.Report, prop string, c *CaseResult, governed map[string
 		if exps == nil {
 			continue
 		}
+		// members the package cannot name still arrive when their struct is copied as a whole
+		rep.Count("hidden_leaves_of_whole_copies_compared", len(hidden[key]))
+		exps = append(append([]*refmodel.Expect{}, exps...), hidden[key]...)
 		if badFuncs[key] {
 			rep.Count("skipped_function_with_type_error", 1)
 			continue
